@@ -1605,6 +1605,37 @@ impl JsObject {
         None
     }
 
+    /// Own enumerable properties in enumeration order, the elements of an array (index keys)
+    /// and the characters of a String object included, symbols last: what spread, rest,
+    /// Object.assign / values / entries copy from a source
+    pub fn own_enumerable_entries(&self) -> Vec<(PropertyKey, JsValue)> {
+        let mut entries = Vec::new();
+        match &self.exotic {
+            ExoticObject::Array { elements } => {
+                for (i, value) in elements.iter().enumerate() {
+                    entries.push((PropertyKey::Index(i as u32), value.clone()));
+                }
+            }
+            ExoticObject::StringObj(s) => {
+                for (i, c) in s.as_str().chars().enumerate() {
+                    entries.push((
+                        PropertyKey::Index(i as u32),
+                        JsValue::String(JsString::from(c.to_string())),
+                    ));
+                }
+            }
+            _ => {}
+        }
+        let covered = entries.len();
+        for (key, prop) in self.properties.iter() {
+            let is_covered_index = matches!(key, PropertyKey::Index(i) if (*i as usize) < covered);
+            if prop.enumerable() && !is_covered_index {
+                entries.push((key.clone(), prop.value.clone()));
+            }
+        }
+        entries
+    }
+
     /// Get a property descriptor, searching the prototype chain
     /// Returns (property, found_in_prototype)
     pub fn get_property_descriptor(&self, key: &PropertyKey) -> Option<(Property, bool)> {
